@@ -50,7 +50,10 @@ def qc(n, ops, cregs=(), md=None, qregs=None):
         name, qs = g[0], list(g[1])
         cs = list(g[2]) if len(g) > 2 else []
         ps = [flt(x) for x in g[3]] if len(g) > 3 else []
-        o.append([name, ps, qs, cs])
+        entry = [name, ps, qs, cs]
+        if len(g) > 4:
+            entry.append(g[4])        # canonical form of the definition of a composite gate
+        o.append(entry)
     return {"t": "qc", "nq": n, "nc": sum(s for _, s in cregs),
             "qregs": [list(x) for x in (qregs or [["q", n]])],
             "cregs": [list(x) for x in cregs], "gp": flt(0.0), "ops": o,
